@@ -140,9 +140,11 @@ class Check:
             seen.add(fnd.get("id"))
             n = sum(1 for f2, _, _ in self.known if f2.get("id") == fnd.get("id"))
             print(f"KNOWN-FINDING: property={self.pid} {fnd.get('id')}: {fnd.get('what')} [{n} trace(s), e.g. {key}]")
-        for key, path, msg in self.violations:
+        for key, path, msg in self.violations[:25]:
             print(f"VIOLATION property={self.pid} replay={path}")
             print(f"  detail: key={key} {msg[:600]}")
+        if len(self.violations) > 25:
+            print(f"  ... and {len(self.violations) - 25} more violations (all listed in the evidence file's violations_list up to 50; replays under replays/{self.pid}/)")
         print(f"[{self.pid}] tier={self.tier} seed={self.seed} design_states={self.states} traces_validated={self.validated} "
               f"evaluations={self.evaluations} distinct={len(self.distinct)} known={len(self.known)} "
               f"violations={len(self.violations)} wall={wall:.1f}s")
